@@ -654,6 +654,7 @@ func main() {
 		{"mainOpts", []string{"MainOpts.lean"}, genMainOpts},
 		{"messageSrc", []string{"MessageSrc.lean"}, genMessageSrc},
 		{"factoryOpts", []string{"FactoryOpts.lean"}, genFactoryOpts},
+		{"stdoutSrc", []string{"StdoutSrc.lean"}, genStdoutSrc},
 	}
 	status := map[string]interface{}{}
 	failed := 0
